@@ -83,8 +83,8 @@ func errCode(e error) uint64 {
 }
 
 type adata struct {
-	k         int // await kind 0 Await, 1 AwaitWithErrCh, 2 AwaitWithCancelCh
-	prom      int // target promise (SetResult, direct await), installed promise (container set; -1 nil)
+	k         int    // await kind 0 Await, 1 AwaitWithErrCh, 2 AwaitWithCancelCh
+	prom      int    // target promise (SetResult, direct await), installed promise (container set; -1 nil)
 	cancel    func() // ends the context the way its flavour prescribes
 	flav      int    // 0 plain WithCancel, 1 deadline-like, 2 cancelled with a cause
 	cancelled bool
@@ -104,10 +104,11 @@ type adata struct {
 }
 
 type sys struct {
-	c     *ctl.Ctl
-	w     *hist.W
-	hx    bool
-	proms []*promise.Promise[int]
+	nwitherr int // pre-resolved promises with a zero value and an error so far (alternates the constructor)
+	c        *ctl.Ctl
+	w        *hist.W
+	hx       bool
+	proms    []*promise.Promise[int]
 	// harness-side bookkeeping used by the generator only
 	setCalled   []bool // a SetResult has been called on the promise, or it was constructed resolved
 	cur         int    // the container's current promise (-1 nil)
@@ -274,7 +275,13 @@ func (s *sys) exec(ev []uint64) (out []uint64, obs []uint64, ok bool) {
 		s.setCalled = append(s.setCalled, false)
 		out = []uint64{1}
 	case 2:
-		s.proms = append(s.proms, promise.NewPromiseWithResult(int(arg(1)), errOf(arg(2))))
+		// the wrapper constructor NewPromiseWithErr is the same promise for a zero value and a non-nil error: every
+		// second such event goes through it
+		if e := errOf(arg(2)); arg(1) == 0 && e != nil && func() bool { s.nwitherr++; return s.nwitherr%2 == 1 }() {
+			s.proms = append(s.proms, promise.NewPromiseWithErr[int](e))
+		} else {
+			s.proms = append(s.proms, promise.NewPromiseWithResult(int(arg(1)), errOf(arg(2))))
+		}
 		s.setCalled = append(s.setCalled, true)
 		out = []uint64{2, arg(1), arg(2)}
 	case 3:
@@ -505,7 +512,6 @@ func (s *sys) exec(ev []uint64) (out []uint64, obs []uint64, ok bool) {
 	}
 	return out, s.status(), true
 }
-
 
 // ---------------------------------------------------------------------------------------------------
 // generation (implementation-driven)
